@@ -348,15 +348,20 @@ class DynGraph(nx.Graph):
             raise nx.NetworkXError(
                 "The t argument must be specified.")
 
+        if not isinstance(t, list):
+            t = [t, t]
+
+        # reject the update before touching any state
+        if u in self._adj and v in self._adj[u] and t[0] < self._adj[u][v]['t'][-1][0]:
+            raise ValueError("The specified interaction extension is broader than "
+                             "the ones already present for the given nodes.")
+
         if u not in self._node:
             self._adj[u] = self.adjlist_inner_dict_factory()
             self._node[u] = {}
         if v not in self._node:
             self._adj[v] = self.adjlist_inner_dict_factory()
             self._node[v] = {}
-
-        if not isinstance(t, list):
-            t = [t, t]
 
         for idt in [t[0]]:
             if self.has_edge(u, v) and not self.edge_removal:
@@ -390,10 +395,6 @@ class DynGraph(nx.Graph):
                     del self.time_to_edge[app[-1][0] + 1][(u, v, "+")]
 
             else:
-                if t[0] < app[-1][0]:
-                    raise ValueError("The specified interaction extension is broader than "
-                                     "the ones already present for the given nodes.")
-
                 if t[0] <= max_end < t[1]:
                     app[-1][1] = t[1]
                     if max_end + 1 in self.time_to_edge:
